@@ -23,6 +23,10 @@ Translation rules (the trusted part of this tie; everything else is checked by L
   if … : return           -> `if … then … else <rest>`
   nested def (no capture) -> a separate generated definition `<outer>__<inner>`
   an int-typed name in float arithmetic -> `Num.ofInt v`
+  all(c(v) for v in rgb)  -> the conjunction over the three components;  int comparisons -> `decide (a ≤ b)`
+  try: BODY except Exception: HANDLER -> BODY, each explicit `raise` in it continuing with HANDLER (exceptions raised
+                             inside callees are not modelled: the `_safe` wrappers' images hold for inputs on which the
+                             plain conversion does not raise)
 """
 import ast
 import os
@@ -35,7 +39,8 @@ FUNCS = [
     ("contrast.py", "calculate_relative_luminance"), ("contrast.py", "calculate_contrast_ratio"),
     ("contrast.py", "get_contrast_level"), ("contrast.py", "get_wcag_level"),
     ("conversions.py", "calculate_hue_angle"), ("conversions.py", "rgb_to_oklch"), ("conversions.py", "oklch_to_rgb"),
-    ("conversions.py", "is_valid_oklch"),
+    ("conversions.py", "is_valid_oklch"), ("conversions.py", "is_valid_rgb"),
+    ("conversions.py", "rgb_to_oklch_safe"), ("conversions.py", "oklch_to_rgb_safe"),
     ("conversions.py", "rgb_to_xyz"), ("conversions.py", "xyz_to_lab"), ("conversions.py", "rgb_to_lab"),
     ("color_metrics.py", "calculate_delta_e_2000"),
 ]
@@ -57,6 +62,8 @@ class Fn:
         self.aux = []           # generated nested definitions
         self.env = {}           # python name -> type
         self.local_fns = {}
+        self.local_fns_alpha = set()
+        self.known_alpha = known.get("__alpha__", {}) if isinstance(known, dict) else {}
 
     # ---- types: 'F' carrier, 'I' Int, 'B' Bool, 'P' Prop (decidable), 'S' String, 'RGB', 'T3', ('ilit', k)
     def ann_type(self, a):
@@ -138,6 +145,8 @@ class Fn:
             a, b = self.expr(n.left), self.expr(n.right)
             if isinstance(n.op, ast.Pow):
                 return self.power(a, b)
+            if isinstance(n.op, ast.Mod):
+                return ("Num.pmod %s %s" % (self.atom(self.toF(a)), self.atom(self.toF(b))), "F")
             op = {ast.Add: "+", ast.Sub: "-", ast.Mult: "*", ast.Div: "/"}.get(type(n.op))
             if op is None:
                 raise Unsupported("operator")
@@ -220,11 +229,25 @@ class Fn:
         if f is None:
             raise Unsupported("comparison operator")
         if self.is_int(a[1]) and self.is_int(b[1]):
-            raise Unsupported("integer comparison")
+            rel = {ast.LtE: "≤", ast.Lt: "<", ast.GtE: "≥", ast.Gt: ">"}.get(type(op))
+            if rel is None:
+                raise Unsupported("integer comparison operator")
+            return ("decide (%s %s %s)" % (self.toI(a), rel, self.toI(b)), "B")
         return ("%s %s %s" % (f, self.atom(self.toF(a)), self.atom(self.toF(b))), "B")
 
     def call(self, n):
         f = n.func
+        if isinstance(f, ast.Name) and f.id == "all" and len(n.args) == 1 and isinstance(n.args[0], ast.GeneratorExp):
+            g = n.args[0]
+            if len(g.generators) == 1 and isinstance(g.generators[0].iter, ast.Name) and self.env.get(g.generators[0].iter.id) == "RGB" \
+                    and isinstance(g.generators[0].target, ast.Name) and not g.generators[0].ifs:
+                var, src = g.generators[0].target.id, lname(g.generators[0].iter.id)
+                parts = []
+                for proj in (".1", ".2.1", ".2.2"):
+                    e = self.expr_subst(g.elt, var, "%s%s" % (src, proj))
+                    parts.append(self.toB(e))
+                return ("(" + " && ".join(parts) + ")", "B")
+            raise Unsupported("all(...) over something else than an RGB tuple")
         args = [self.expr(a) for a in n.args]
         if n.keywords:
             raise Unsupported("keyword arguments")
@@ -244,6 +267,11 @@ class Fn:
             return ("Num.abs %s" % self.atom(self.toF(args[0])), "F")
         if f.id == "round" and len(args) == 1:
             return ("Num.roundHE %s" % self.atom(self.toF(args[0])), "I")
+        if f.id == "int" and len(args) == 1 and args[0][1] == "I":
+            return args[0]
+        if f.id in ("max", "min") and len(args) == 3 and not all(self.is_int(t) for _, t in args):
+            inner = "Num.p%s %s %s" % (f.id, self.atom(self.toF(args[0])), self.atom(self.toF(args[1])))
+            return ("Num.p%s (%s) %s" % (f.id, inner, self.atom(self.toF(args[2]))), "F")
         if f.id in ("max", "min") and len(args) == 2:
             if all(self.is_int(t) for _, t in args):
                 return ("(%s %s %s)" % (f.id, self.atom(self.toI(args[0])), self.atom(self.toI(args[1]))), "I")
@@ -264,13 +292,17 @@ class Fn:
                 out.append(self.atom(a[0]))
             else:
                 raise Unsupported("argument type %s for %s" % (a[1], pt))
-        return ("%s (α := α) %s" % (name, " ".join(out)), rtype)
+        uses_alpha = name in self.local_fns_alpha or self.known_alpha.get(f.id, True)
+        return ("%s%s %s" % (name, " (α := α)" if uses_alpha else "", " ".join(out)), rtype)
 
     # ---- statements
     def assigned(self, stmts):
         out = []
         for s in stmts:
-            if isinstance(s, ast.Assign):
+            if isinstance(s, ast.AugAssign) and isinstance(s.target, ast.Name):
+                if s.target.id not in out:
+                    out.append(s.target.id)
+            elif isinstance(s, ast.Assign):
                 for t in s.targets:
                     for nm in ([t] if isinstance(t, ast.Name) else t.elts):
                         if nm.id not in out:
@@ -282,9 +314,9 @@ class Fn:
         return out
 
     def returns(self, stmts):
-        """True when every path through stmts ends in a return"""
+        """True when every path through stmts ends in a return (or a raise)"""
         for s in stmts:
-            if isinstance(s, ast.Return):
+            if isinstance(s, (ast.Return, ast.Raise)):
                 return True
             if isinstance(s, ast.If) and s.orelse and self.returns(s.body) and self.returns(s.orelse):
                 return True
@@ -304,6 +336,26 @@ class Fn:
         s, rest = stmts[0], stmts[1:]
         if isinstance(s, ast.Expr) and isinstance(s.value, ast.Constant) and isinstance(s.value.value, str):
             return self.block(rest, tail, ind)         # docstring
+        if isinstance(s, ast.Try):
+            # try: BODY except Exception: HANDLER  ->  BODY, every explicit `raise` in it continuing with HANDLER
+            if len(s.handlers) != 1 or s.orelse or s.finalbody or rest or tail is not None:
+                raise Unsupported("shape of try statement")
+            h = s.handlers[0]
+            if not (h.type is None or (isinstance(h.type, ast.Name) and h.type.id == "Exception")):
+                raise Unsupported("exception filter")
+            saved, self.handler = getattr(self, "handler", None), (list(h.body), dict(self.env))
+            r = self.block(list(s.body), None, ind)
+            self.handler = saved
+            return r
+        if isinstance(s, ast.Raise):
+            if getattr(self, "handler", None) is None or tail is not None:
+                raise Unsupported("raise outside try")
+            hbody, henv = self.handler
+            saved_env, saved_h = self.env, self.handler
+            self.env, self.handler = dict(henv), None
+            r = self.block(hbody, None, ind)
+            self.env, self.handler = saved_env, saved_h
+            return r
         if isinstance(s, ast.Return):
             if tail is not None:
                 raise Unsupported("return inside an assigning branch")
@@ -320,7 +372,13 @@ class Fn:
             text = sub.translate()
             self.aux += sub.aux + [text]
             self.local_fns[s.name] = (sub.name, sub.ptypes, sub.ret_type)
+            if "α" in text:
+                self.local_fns_alpha.add(sub.name)
             return self.block(rest, tail, ind)
+        if isinstance(s, ast.AugAssign) and isinstance(s.target, ast.Name):
+            load = ast.copy_location(ast.Name(id=s.target.id, ctx=ast.Load()), s.target)
+            s = ast.copy_location(ast.Assign(targets=[ast.Name(id=s.target.id, ctx=ast.Store())],
+                                             value=ast.copy_location(ast.BinOp(left=load, op=s.op, right=s.value), s)), s)
         if isinstance(s, ast.Assign):
             if len(s.targets) > 1:
                 # a = b = c = e
@@ -393,6 +451,9 @@ class Fn:
                 return "%sif %s then\n%s\n%selse\n%s" % (pad, c, a, pad, b), bt
             vs = [v for v in self.assigned(s.body) + self.assigned(s.orelse)]
             vs = [v for i, v in enumerate(vs) if v not in vs[:i]]
+            # only what is read afterwards (or yielded by the enclosing branch) leaves the statement
+            live = {x.id for st in rest for x in ast.walk(st) if isinstance(x, ast.Name)} | set(tail or ())
+            vs = [v for v in vs if v in live]
             if not vs:
                 raise Unsupported("if without effect")
             # a name first bound inside the statement must be bound by every branch (else `block` fails on the free name)
@@ -438,6 +499,70 @@ class Fn:
             raise Unsupported("int-valued function")
         self.ret_type = rt
         return ("/-- `%s` (line %d) -/\ndef %s %s : %s :=\n%s\n" % (n.name, n.lineno, self.name, " ".join(params), self.lean_type(rt), body))
+
+
+def fragment(src, fn, name, doc, inputs, start, outputs_of):
+    """part of a function body as a definition: the statements from the first one satisfying `start` up to the final
+    `return`, whose value `outputs_of` turns into the expressions to yield; `inputs` are the names (with types) bound
+    by the part that is skipped (parsing and validation of string / tuple input: the parser model's subject)"""
+    body = list(fn.body)
+    idx = [i for i, x in enumerate(body) if start(x)]
+    if len(idx) != 1 or not isinstance(body[-1], ast.Return):
+        raise Unsupported("%s: cannot locate the numeric part" % fn.name)
+    outs = outputs_of(body[-1].value)
+    stmts = body[idx[0]:-1] + [ast.Return(value=ast.Tuple(elts=outs, ctx=ast.Load()))]
+    f = Fn(src, fn, {})
+    f.name = name
+    f.env = dict(inputs)
+    text, rt = f.block(stmts, None, 1)
+    params = " ".join("(%s : %s)" % (lname(k), f.lean_type(v)) for k, v in inputs.items())
+    return "".join(f.aux) + "/-- %s (from line %d of `%s`) -/\ndef %s %s : %s :=\n%s\n" % (doc, body[idx[0]].lineno, fn.name, name, params, f.lean_type(rt), text)
+
+
+def fstring_values(parts):
+    def go(v):
+        if not isinstance(v, ast.JoinedStr):
+            raise Unsupported("the return value is not an f-string")
+        consts = [x.value for x in v.values if isinstance(x, ast.Constant)]
+        vals = [x.value for x in v.values if isinstance(x, ast.FormattedValue)]
+        if consts != parts or any(x.format_spec or x.conversion != -1 for x in v.values if isinstance(x, ast.FormattedValue)):
+            raise Unsupported("shape of the f-string: %r" % consts)
+        return vals
+    return go
+
+
+def int_round_triple(v):
+    if not (isinstance(v, ast.Tuple) and len(v.elts) == 3):
+        raise Unsupported("the return value is not a triple")
+    return list(v.elts)
+
+
+def fragments(src):
+    tree = ast.parse(src)
+    fns = {n.name: n for n in tree.body if isinstance(n, ast.FunctionDef)}
+    out = []
+    specs = [
+        ("rgb_to_hsl", "rgb_to_hsl_core", "the arithmetic of `rgb_to_hsl`: validated channels on the 0-255 scale to the three numbers it prints",
+         {"r": "F", "g": "F", "b": "F"},
+         lambda x: isinstance(x, ast.AugAssign) and isinstance(x.target, ast.Name) and x.target.id == "r",
+         fstring_values(["hsl(", ", ", "%, ", "%)"])),
+        ("hsl_to_rgb", "hsl_to_rgb_core", "the arithmetic of `hsl_to_rgb`: parsed and range-checked `(h, s, l)` to the 8-bit colour",
+         {"h": "F", "s": "F", "l": "F"},
+         lambda x: isinstance(x, ast.If) and isinstance(x.test, ast.Compare) and isinstance(x.test.left, ast.Name) and x.test.left.id == "s"
+         and isinstance(x.test.ops[0], ast.Eq), int_round_triple),
+        ("rgba_to_rgb", "rgba_to_rgb_core", "the blend of `rgba_to_rgb` after its validation",
+         {"r": "I", "g": "I", "b": "I", "a": "F", "background": "RGB"},
+         lambda x: isinstance(x, ast.Assign) and isinstance(x.targets[0], ast.Tuple) and isinstance(x.value, ast.Name) and x.value.id == "background",
+         int_round_triple),
+    ]
+    for fname, gname, doc, inputs, start, outs in specs:
+        try:
+            if fname not in fns:
+                raise Unsupported("not found")
+            out.append(fragment(src, fns[fname], gname, doc, inputs, start, outs))
+        except Unsupported as e:
+            out.append("-- %s: outside the translated subset (%s)\n" % (gname, e))
+    return out
 
 
 def find_assign(fn, name):
@@ -528,20 +653,26 @@ def generate():
             continue
         texts += f.aux + [t]
         known[fn] = (f.name, f.ptypes, f.ret_type)
+        known.setdefault("__alpha__", {})[fn] = "α" in t
     try:
         params = params_of_optimisation(open(os.path.join(REPO, CORE, "optimisation.py"), encoding="utf-8").read())
     except Unsupported as e:
         params = ["-- optimisation.py parameters: outside the translated subset (%s)\n" % e]
+    try:
+        frags = fragments(srcs.get("conversions.py") or open(os.path.join(REPO, CORE, "conversions.py"), encoding="utf-8").read())
+    except Unsupported as e:
+        frags = ["-- conversions.py fragments: outside the translated subset (%s)\n" % e]
     out = ("import CmModel.Num\n/-! GENERATED by harness/translate/leaves.py from src/cm_colors/core/{contrast,conversions,color_metrics,optimisation}.py — do not edit. -/\n"
            "set_option linter.unusedVariables false\n"
            "namespace CmGen.Leaves\nopen Cm\nvariable {α : Type} [NumT α]\n\n" + "\n".join(texts) +
+           "\n/-! ## conversions.py: the arithmetic inside the string/tuple-polymorphic helpers -/\n\n" + "\n".join(frags) +
            "\n/-! ## optimisation.py: schedules, iteration counts, thresholds -/\n\n" + "\n".join(params) + "\nend CmGen.Leaves\n")
     path = os.path.join(LEAN, "CmGen", "Leaves.lean")
     old = open(path).read() if os.path.exists(path) else None
     if old != out:
         with open(path, "w") as f:
             f.write(out)
-    return len(known)
+    return len([k for k in known if not k.startswith("__")])
 
 
 def summary():
